@@ -1007,10 +1007,10 @@ pub fn check(prop: &str, tier: &str) -> i32 {
     let (a1, s1, c1) = crate::bnb::run_plans(&rep, &[prop], &plans, dl);
     cov["single_worker_part"] = crate::checks::par1_cov(&a1, s1, c1);
     // ALL interleavings (explicit-state search) on the smallest non-trivial instances
-    let (acov, aok, aexec, _) = all_part(&rep, prop, CutMode::None, false, false, 14.0, 1200.0);
+    let (acov, aok, aexec, _) = all_part(&rep, prop, CutMode::None, false, false, 14.0, 600.0);
     cov["all_interleavings_part"] = acov;
     let mut aok2 = true; let mut aexec2 = 0;
-    if prop == "C04" { let (acov2, ok2, ex2, _) = all_part(&rep, prop, CutMode::EveryPoll, false, false, 8.0, 900.0); cov["all_interleavings_with_cutoff_part"] = acov2; aok2 = ok2; aexec2 = ex2; }
+    if prop == "C04" { let (acov2, ok2, ex2, _) = all_part(&rep, prop, CutMode::EveryPoll, false, false, 8.0, 400.0); cov["all_interleavings_with_cutoff_part"] = acov2; aok2 = ok2; aexec2 = ex2; }
     cov["evaluations"] = json!(c.executions + a1.runs + a1.cut_runs + aexec + aexec2);
     cov["exhaustive"] = json!(c.complete && c1 && aok && aok2);
     rep.finish("model_checking", cov, assumptions())
